@@ -33,6 +33,8 @@ def gen_re(rng, depth=0, chars=b"abrefs/-_.0123456789htmnv"):
         return (rng.choice("*+?"), gen_re(rng, depth + 1, chars))
     if k < 0.93:
         return ("e",)
+    if k < 0.96:
+        return (rng.choice("^$"),)
     return ("c", rng.choice(chars))
 
 
@@ -103,7 +105,8 @@ REFPOOL = [b"refs/heads/main", b"refs/heads/master", b"refs/heads/feature/x", b"
            b"refs/he", b"refs/tags/v1", b"refs/tags/v1.0", b"refs/tags/release-1.2.3", b"refs/tags/release-1.2.3rc1",
            b"refs/remotes/origin/main", b"refs/remotes/origin/HEAD", b"refs/remotes/up/x", b"refs/pull/1/head",
            b"refs/pull/1/merge", b"refs/changes/12/3412/1", b"refs/changes/1/2/3", b"refs/notes/commits", b"refs/stash",
-           b"refs/stash/x", b"refs/foo", b"refs/foo/bar", b"refs/foobar", b"refs/a", b"refs/abc", b"refs/tags/refs/heads"]
+           b"refs/stash/x", b"refs/foo", b"refs/foo/bar", b"refs/foobar", b"refs/a", b"refs/abc", b"refs/tags/refs/heads",
+           b"refs/heads/a", b"refs/tags/b", b"refs/heads/a$"]
 
 
 def gen_refs(rng):
@@ -158,6 +161,22 @@ def gen_groupdefs(rng, deep=False):
 
 def gen_re_refs(rng):
     """A regexp likely to match some reference names."""
+    if rng.random() < 0.25:
+        # patterns the user anchored by hand: ^A|B$, ^A$, ^A, B$, and a literal dollar at the end
+        a = rng.choice([b"refs/heads/main", b"refs/heads/a", b"refs/tags/v1", b"refs/foo", b"refs/he"])
+        b = rng.choice([b"refs/tags/v1", b"refs/foo", b"refs/stash", b"refs/tags/b", b"refs/heads/a$"])
+        form = rng.randrange(6)
+        if form == 0:
+            return ("|", ("&", ("^",), lit_re(a)), ("&", lit_re(b), ("$",)))
+        if form == 1:
+            return ("&", ("^",), ("&", lit_re(a), ("$",)))
+        if form == 2:
+            return ("|", ("&", ("^",), lit_re(a)), lit_re(b))
+        if form == 3:
+            return ("|", lit_re(a), ("&", lit_re(b), ("$",)))
+        if form == 4:
+            return ("|", ("&", ("^",), lit_re(a)), lit_re(b"refs/heads/a$"))      # ends with an escaped dollar
+        return ("&", ("^",), ("&", ("|", lit_re(a), lit_re(b)), ("$",)))
     k = rng.random()
     if k < 0.3:
         return ("&", lit_re(rng.choice([b"refs/heads/", b"refs/tags/", b"refs/"])), ("*", (".",)))
